@@ -17,6 +17,8 @@ func init() {
 }
 
 func checkC09(c *Ctx, r *Report) {
+	defer checkContainerFields(c, r, "C09.c")
+	defer checkProcessWideState(c, r, "C09.c")
 	w := c.W
 	r.NotDecided = append(r.NotDecided, "type-correctness of the generated code for every project (depends on user type and parameter names)", "what goimports/gofmt accept")
 	r.Assume = append(r.Assume, "imports.Process and format.Source return an error for syntactically invalid Go")
